@@ -453,6 +453,7 @@ def default_builtins():
         "getattr": b_getattr,
         "id": b_id,
         "tuple": PyType(tuple, b_tuple),
+        "slice": slice,
         "list": PyType(list, b_list),
         "set": PyType(set, b_set),
         "dict": PyType(dict, b_dict),
